@@ -118,7 +118,8 @@ def stage1(run: Run):
     sol = z3.Solver()
     sol.set(timeout=5000)
     sol.add(z3.SuffixOf(z3.StringVal("google.longrunning.Operation"), x), z3.Or(x == z3.StringVal("google.protobuf.Empty"), x == z3.StringVal(".google.protobuf.Empty")))
-    r = sol.check()
+    from vf.smt import guarded_check
+    r = guarded_check(sol, 5000)[0]
     run.results.append(Result("lro.schema:lro-implies-not-void (string lemma)", "discharged" if r == z3.unsat else "unknown", "z3", 0, "lemma", group="lro.schema:lro-not-void"))
     run.assume("a MessageType registered under key k has ident.proto == k (provenance: _load_message registers under address.proto), so "
                "Method.output.ident.proto is the method's output_type without the leading dot")
